@@ -14,3 +14,12 @@ package shelley
 //@ func UtxoValidateWithdrawals(tx, slot, ls, pp) (err)
 //@   functional
 //@   props C33
+
+// C34: with body validation enabled the era decoder succeeds only if ValidateBlockBodyHash accepted
+// these very bytes against the decoded header's own body hash, over the era's 4 top-level items.
+//@ func NewShelleyBlockFromCbor(data, config) (blk, err)
+//@   props C34
+//@   attr trackcalls on
+//@   ensures checked: err == nil && !old(len(config) > 0 && config[0].SkipBodyHashValidation) ==>
+//@       called(ValidateBlockBodyHash) && callres(ValidateBlockBodyHash) == nil && callarg(ValidateBlockBodyHash, 0) == data &&
+//@       callarg(ValidateBlockBodyHash, 3) == 4 && called(BlockBodyHash) && callarg(ValidateBlockBodyHash, 1) == callres(BlockBodyHash)
